@@ -115,3 +115,82 @@ func nonCtorWriter(p *Prog, fld *types.Var) ssa.Instruction {
 	}
 	return nil
 }
+
+// ruleArrayReset — R-STATE/array: P-FX does not track the elements of array-typed fields; for such a field of a reusable
+// object, each of its elements is reset on every path to every return of the object's reset method: by a store to
+// <field>[k] with the constant k, or by a call f(.., k, ..) of a function whose parameter indexes the store.
+func ruleArrayReset(p *Prog, r *Report, pkg, typ, field string, reset fnRef) {
+	const rule = "R-STATE/array"
+	fld := p.Field(pkg, typ, field)
+	at, ok := fld.Type().Underlying().(*types.Array)
+	if !ok {
+		undecided("R-STATE/array: %s.%s is no longer an array", typ, field)
+	}
+	f := p.Func(reset.pkg, reset.recv, reset.name)
+	// functions storing to field[param j]: function -> j
+	viaParam := map[*ssa.Function]int{}
+	elemStore := func(in ssa.Instruction) (ssa.Value, bool) {
+		st, ok := in.(*ssa.Store)
+		if !ok {
+			return nil, false
+		}
+		ia, ok := st.Addr.(*ssa.IndexAddr)
+		if !ok {
+			return nil, false
+		}
+		fa, ok := ia.X.(*ssa.FieldAddr)
+		if !ok || fieldOf(fa) != fld {
+			return nil, false
+		}
+		return stripConv(ia.Index), true
+	}
+	for _, g := range p.ModFns() {
+		for _, b := range g.Blocks {
+			for _, in := range b.Instrs {
+				if idx, ok := elemStore(in); ok {
+					if par, ok := idx.(*ssa.Parameter); ok && b == g.Blocks[0] {
+						for j, q := range g.Params {
+							if q == par {
+								viaParam[g] = j
+							}
+						}
+					}
+				}
+			}
+		}
+	}
+	for k := int64(0); k < at.Len(); k++ {
+		key := fmt.Sprintf("%s.%s[%d]/%s", typ, field, k, p.FnName(f))
+		r.Instance(rule, key)
+		resets := func(in ssa.Instruction) bool {
+			if idx, ok := elemStore(in); ok {
+				c, isC := intConst(idx)
+				return isC && c == k
+			}
+			if call, ok := in.(ssa.CallInstruction); ok {
+				if sc := call.Common().StaticCallee(); sc != nil {
+					if j, ok := viaParam[sc]; ok && j < len(call.Common().Args) {
+						c, isC := intConst(call.Common().Args[j])
+						return isC && c == k
+					}
+				}
+			}
+			return false
+		}
+		ok := true
+		var where ssa.Instruction
+		var path []string
+		for _, b := range f.Blocks {
+			ret, isRet := b.Instrs[len(b.Instrs)-1].(*ssa.Return)
+			if !isRet {
+				continue
+			}
+			where = ret
+			if good, pth := mustPrecede(p, f, ret, resets, nil); !good {
+				ok, path = false, pth
+				break
+			}
+		}
+		r.Check(ok, rule, key, p.IPos(where), fmt.Sprintf("element %d of %s.%s is reset on every path through %s", k, typ, field, p.FnName(f)), path...)
+	}
+}
